@@ -5,6 +5,7 @@ pub mod arena;
 pub mod fault;
 pub mod ledger;
 pub mod rng;
+pub mod sched;
 pub mod zoo;
 
 use std::sync::atomic::{AtomicBool, Ordering};
@@ -72,4 +73,21 @@ pub fn json_escape(s: &str) -> String {
         }
     }
     out
+}
+
+fn unsimulated_entry(what: &'static str) {
+    let _t = arena::tag_scope(arena::TAG_HARNESS);
+    eprintln!("HARNESS-ERROR unsimulated rayon entry point reached while a simulation is active: {what}");
+    std::process::exit(2);
+}
+
+static RAYON_HOOKS: rayon_core::sim::Hooks = rayon_core::sim::Hooks {
+    join: sched::join,
+    num_threads: sched::num_threads,
+    unsimulated: unsimulated_entry,
+};
+
+/// Route rayon's fork/join through the simulated scheduler for the rest of the process.
+pub fn install_rayon_seam() {
+    rayon_core::sim::install(&RAYON_HOOKS);
 }
